@@ -172,7 +172,7 @@ def record(check, n, seed):
                 kind = 'unrelated'
         kinds[kind] += 1
         inputs.append((p, t, kind))
-    rows = B.pmap(record_row, inputs)
+    rows = B.pmap(record_row, [(B.normalize(p), t, how) for p, t, how in inputs])
     rejects = vlib.validate_rows(check, 'Trace_C09', rows, 'random-patterns', chunk=4000)
     for row, rej in rejects:
         row['_rejected'] = True
@@ -215,7 +215,18 @@ def match_finding(f, case):
 
 MUTANTS = [('opt_default_always', ('Result', 'Unchanged', 'Decides')), ('dict_try_later', ('Decides',)),
            ('required_ignored', ('Decides',)), ('type_exact', ('Decides',)),
-           ('not_glomerror', ('ErrClass',))]      # glom's behaviour before its repair
+           ('not_glomerror', ('ErrClass',)),      # glom's behaviour before its repair
+           # one plausible wrong mechanism per further construct
+           ('nested_match_default_ignored', ('Decides', 'Result')),      # Match nested in a pattern
+           ('regex_flags_ignored', ('Decides',)), ('regex_default_search', ('Decides',)),
+           ('regex_nonstr_typematcherror', ('ErrClass',)),               # Regex on a non-string
+           ('m_reflected_unswapped', ('Decides',)),                      # constant op M
+           ('keys_by_precedence', ('Decides', 'Result')),                # several candidate keys: insertion order
+           ('opt_default_validated', ('Decides',)),                      # Optional(key, default=)
+           ('type_keys_required', ('Decides',)),                         # type / object catch-all keys are optional
+           ('set_family_loose', ('Decides', 'ErrClass')),                # set vs frozenset patterns
+           ('tuple_length_unchecked', ('Decides',)),                     # tuples are fixed-length
+           ('unorderable_is_rejection', ('ErrClass',))]                  # unorderable operands
 
 
 def main(tier, seed):
